@@ -194,6 +194,26 @@ def entity_table():
         "ExtrudedStack": ("additive", lambda: cb.ExtrudedStack(cb.Grid([0, 0, 0], [2, 1, 0], 2, 1), 1.5, 2)),
         "RevolvedStack": ("additive", lambda: cb.RevolvedStack(cb.Grid([0, 1, 0], [2, 2, 0], 2, 1), 1.0, [1, 0, 0], [0, 0, 0], 2)),
         "TJoint": ("additive", lambda: cb.TJoint([0, 0, 0], [2, 0, 0], [0, 0.4, 0])),
+        "RevolvedShape": ("additive", lambda: cb.RevolvedShape(cb.Grid([0, 1, 0], [2, 2, 0], 2, 1), 0.8, [1, 0, 0], [0, 0.2, 0])),
+        "LoftedShapeMid": (
+            "additive",
+            lambda: cb.LoftedShape(
+                cb.Grid([0, 0, 0], [2, 1, 0], 2, 1),
+                cb.Grid([0, 0, 0], [2, 1, 0], 2, 1).translate([0.2, 0, 1.5]),
+                cb.Grid([0, 0, 0], [2, 1, 0], 2, 1).translate([0.4, 0.1, 0.7]),
+            ),
+        ),
+        "SemiCylinder": ("additive", lambda: cb.SemiCylinder([0.2, 0.1, 0.3], [0.2, 0.1, 1.5], [0.9, 0.1, 0.3])),
+        "TransformedStack": (
+            "additive",
+            lambda: cb.TransformedStack(
+                cb.Grid([0, 0, 0], [2, 1, 0], 2, 1),
+                [cb.Translation([0, 0, 0.7]), cb.Rotation([0, 0, 1], 0.3, [0, 0, 0])],
+                2,
+                [cb.Translation([0, 0, 0.35]), cb.Rotation([0, 0, 1], 0.15, [0, 0, 0])],
+            ),
+        ),
+        "LJoint": ("additive", lambda: cb.LJoint([0, 0, 0], [2, 0, 0], [0, 0.4, 0])),
     }
     from classy_blocks.construct.point import Point
 
@@ -201,7 +221,7 @@ def entity_table():
     return ent
 
 
-CHEAP = ["Point", "Face", "FaceAngle", "LoftSharedAngle", "FaceSharedOrigin", "DiscreteCurve", "LinearInterpolatedCurve", "SplineInterpolatedCurve", "LineCurve", "CircleCurve", "LoftEdges", "Extrude", "Revolve", "Wedge", "OnCurveLoft", "Box", "Grid", "OneCoreDisk"]
+CHEAP = ["Point", "Face", "FaceAngle", "LoftSharedAngle", "FaceSharedOrigin", "DiscreteCurve", "LinearInterpolatedCurve", "SplineInterpolatedCurve", "LineCurve", "CircleCurve", "LoftEdges", "Extrude", "Revolve", "Wedge", "OnCurveLoft", "Box", "Grid", "OneCoreDisk", "RevolvedShape"]
 
 
 def cases(tier, seed):
